@@ -682,7 +682,7 @@ func c10Instances(add func(*Instance), thorough bool) {
 	// 1. arbitrary byte strings of every length up to the bound, every entry point
 	maxL, tail := 12, []int{14, 16}
 	if thorough {
-		maxL, tail = 16, []int{18, 20, 22} // L = 24 does not finish within the per-instance budget
+		maxL, tail = 16, []int{18, 20} // L >= 22 does not finish within the per-instance budget
 	}
 	for rd := 0; rd <= 5; rd++ {
 		for L := 0; L <= maxL; L++ {
@@ -1206,6 +1206,7 @@ func c19Instances(add func(*Instance), thorough bool) {
 		ad(with(base, "st", 2, "w2", 2, "sc", 1), 0)
 		ad(with(base, "st", 3, "sc", 0), 0)
 		ad(with(base, "st", 3, "sc", 2), 0)
+		ad(with(base, "st", 3, "self", 1), 0) // ClearValues(index.GetExistenceBitmap())
 		ad(with(base, "st", 5), 0)
 		ad(with(base, "st", 6), 0)
 		ad(with(base, "st", 8, "sc", 0), 0)
